@@ -504,20 +504,19 @@ func checkC03(c *C03Case) Result {
 				fn = append(fn, KV{"", f.Name})
 				ff = append(ff, KV{"", f.Field})
 			}
-			// FILES_SIZES is keyed by file name: one entry per distinct name
-			seen := map[string]bool{}
-			for i := len(c.Files) - 1; i >= 0; i-- {
-				f := c.Files[i]
-				if !seen[strings.ToLower(f.Name)] {
-					seen[strings.ToLower(f.Name)] = true
-					fs = append(fs, KV{f.Name, fmt.Sprint(len(f.Content))})
+			// FILES_SIZES: the size of every uploaded file, under its file name (two uploads may share a name)
+			for _, f := range c.Files {
+				fs = append(fs, KV{f.Name, fmt.Sprint(len(f.Content))})
+			}
+			if !expect("ARGS_POST", c.Pairs) || !expect("FILES", fn) || !expect("FILES_NAMES", ff) || !expect("FILES_SIZES", fs) {
+				return res
+			}
+			names := map[string]bool{}
+			for _, f := range c.Files {
+				if names[strings.ToLower(f.Name)] {
+					res.Labels = append(res.Labels, "uploads-sharing-a-file-name")
 				}
-			}
-			if !expect("ARGS_POST", c.Pairs) || !expect("FILES", fn) || !expect("FILES_NAMES", ff) {
-				return res
-			}
-			if len(seen) == len(c.Files) && !expect("FILES_SIZES", fs) {
-				return res
+				names[strings.ToLower(f.Name)] = true
 			}
 		}
 	case "json":
